@@ -298,7 +298,7 @@ pub trait String:
 
     /// Removes a character at the provided index and returns it.
     fn remove(&mut self, idx: usize) -> Option<u8> {
-        if self.len() < idx {
+        if self.len() <= idx {
             return None;
         }
 
@@ -321,6 +321,10 @@ pub trait String:
             unsafe {
                 core::ptr::copy(ptr.add(idx + len), ptr.add(idx), self.len() - (idx + len));
             }
+        }
+
+        if len == 0 {
+            return true;
         }
 
         let new_len = self.len() - len;
